@@ -91,8 +91,72 @@ def check(ctx, entries, reach, rule="PANIC", modular=True, budget=300000):
         except RecursionError:
             R.violation(rule, p + "|recursion", "analysis recursion limit", function=p, kind="UNRECOGNISED-SHAPE")
     R.extra["panic_functions_analysed"] = n
-    report(ctx, eng, rule, entry=entries[0] if entries else None)
+    obs = export(eng)
+    if modular and entries and any(o["status"] != "discharged" for o in obs):
+        obs = rescue_in_context(ctx, eng, obs, entries, members, rule)
+    report_obs(ctx, obs, sorted(eng.analysed), rule, None, entries[0] if entries else None)
     return eng
+
+
+def rescue_in_context(ctx, eng, obs, entries, members, rule):
+    """Modular analysis assumes nothing about a helper's arguments.  A site that stays open in a *private* helper whose
+    every caller lies inside the analysed set is re-examined in context: the entry points are analysed with everything
+    inlined (closures handed to `map(..).collect()` as abstract loops, the length-bound join template at every join);
+    if the site is reached there and discharged on every visit, it is discharged — all its contexts were covered."""
+    from engine.interp import Budget, Engine
+    F, R, cg = ctx.facts, ctx.report, ctx.cg
+    callers = {}
+    for c, tgts in cg.edges.items():
+        for t in tgts:
+            callers.setdefault(t, set()).add(c)
+
+    def private_inside(fn):
+        seen, todo = set(), [fn]
+        while todo:
+            f = todo.pop()
+            if f in seen:
+                continue
+            seen.add(f)
+            b = F.body(f)
+            if b is None:
+                return False
+            if f in entries:
+                continue
+            if "::{closure" not in f and str(b.get("vis", "")).startswith("Public"):
+                return False
+            cs = callers.get(f, set())
+            if "::{closure" in f:
+                cs = cs | {f.split("::{closure")[0]}
+            if not cs or not all(c in members or c in entries for c in cs):
+                return False
+            todo.extend(cs)
+        return True
+
+    open_keys = [o for o in obs if o["status"] != "discharged"]
+    cand = [o for o in open_keys if o["func"] not in entries and private_inside(o["func"])]
+    if not cand:
+        return obs
+    import time as _time
+    e2 = Engine(F, budget=100000)  # small on purpose: the rescue is for compact decoders, not for whole-module entry points
+    e2.deadline = _time.time() + 20
+    e2.model_lazy_collect = True
+    e2.len_bound_all_joins = True
+    try:
+        for p in entries:
+            b = F.body(p)
+            if b is not None:
+                e2.call_path(p, e2.symbolic_args(b))
+    except (Budget, RecursionError):
+        return obs
+    ctxobs = {k: o for k, o in e2.obligations.items()}
+    out = []
+    for o in obs:
+        c = ctxobs.get(o["key"])
+        if o in cand and c is not None and c.status == "discharged" and c.count > 0:
+            o = dict(o, status="discharged", reason="open for unconstrained arguments; discharged on all %d visit(s) of the in-context analysis from %s (private helper, every caller inside the analysed set): %s" % (c.count, entries[0], c.reason))
+            R.notes.append("%s: %s discharged in context (modular analysis alone leaves it open)" % (rule, o["key"]))
+        out.append(o)
+    return out
 
 
 def fold_closures(F, reach):
